@@ -4,6 +4,7 @@ import (
 	"bufio"
 	"bytes"
 	"encoding/json"
+	"errors"
 	"fmt"
 	"io"
 	"os"
@@ -38,6 +39,8 @@ type Case struct {
 	// bundle: "<mode>/<pluralIndex>"
 	Msgs string `json:"msgs,omitempty"`
 	Text    string            `json:"text,omitempty"`
+	// FailAfter: for kind globals-reader, the number of bytes served before the reader fails
+	FailAfter int `json:"failAfter,omitempty"`
 }
 
 // Outcome is what the worker observed.
@@ -105,6 +108,54 @@ func runCase(c *Case) (o Outcome) {
 				defer func() { recover() }()
 				o.Out = v.String()
 			}()
+		}
+	case "globals-reader":
+		// a reader that fails (with c.Expr naming the error) after c.FailAfter bytes
+		_, err := soy.ParseGlobals(&failingReader{text: c.Text, failAfter: c.FailAfter, kind: c.Expr})
+		o.Returned, o.Err = true, err != nil
+		if err != nil {
+			o.ErrText = err.Error()
+		}
+	case "bundle-paths":
+		// files and globals given as PATHS (a directory, a missing file, a real
+		// file): every entry point that opens them must return
+		dir, derr := os.MkdirTemp("", "c06-paths-")
+		if derr != nil {
+			o.Returned, o.Err, o.ErrText = true, true, "tool: "+derr.Error()
+			return
+		}
+		defer os.RemoveAll(dir)
+		os.WriteFile(dir+"/ok.soy", []byte("{namespace p}\n{template .t}\nok{G}\n{/template}\n"), 0o644)
+		os.WriteFile(dir+"/g.txt", []byte("G = 1\n"), 0o644)
+		os.Mkdir(dir+"/sub", 0o755)
+		os.WriteFile(dir+"/sub/x.soy", []byte("{namespace q}\n{template .t}\nx\n{/template}\n"), 0o644)
+		b := soy.NewBundle()
+		for _, step := range strings.Split(c.Text, ";") {
+			kv := strings.SplitN(step, "=", 2)
+			if len(kv) != 2 {
+				continue
+			}
+			path := strings.ReplaceAll(kv[1], "$D", dir)
+			switch kv[0] {
+			case "globals":
+				b.AddGlobalsFile(path)
+			case "file":
+				b.AddTemplateFile(path)
+			case "dir":
+				b.AddTemplateDir(path)
+			}
+		}
+		tofu, err := b.CompileToTofu()
+		o.Returned, o.Err = true, err != nil
+		if err != nil {
+			o.CompileErr, o.ErrText = true, err.Error()
+			return
+		}
+		var buf bytes.Buffer
+		err = tofu.Render(&buf, c.Entry, nil)
+		o.Err, o.Out = err != nil, buf.String()
+		if err != nil {
+			o.ErrText = err.Error()
 		}
 	case "globals":
 		_, err := soy.ParseGlobals(strings.NewReader(c.Text))
@@ -236,4 +287,36 @@ func runBatch(cases []*Case, deadline time.Duration, res map[int]Outcome) (int, 
 			return done, nil
 		}
 	}
+}
+
+// failingReader serves text and then returns an error that is not io.EOF.
+type failingReader struct {
+	text      string
+	failAfter int
+	kind      string
+	pos       int
+}
+
+func (r *failingReader) Read(p []byte) (int, error) {
+	if r.pos >= r.failAfter || r.pos >= len(r.text) {
+		switch r.kind {
+		case "unexpected-eof":
+			return 0, io.ErrUnexpectedEOF
+		case "eisdir":
+			return 0, &os.PathError{Op: "read", Path: "x", Err: syscall.EISDIR}
+		case "zero-nil": // a misbehaving reader: (0, nil) a few times, then an error
+			r.pos++
+			if r.pos < r.failAfter+5 {
+				return 0, nil
+			}
+			return 0, io.ErrClosedPipe
+		}
+		return 0, errors.New("read failed")
+	}
+	n := copy(p, r.text[r.pos:min(len(r.text), r.failAfter)])
+	if n > 7 {
+		n = 7 // short reads
+	}
+	r.pos += n
+	return n, nil
 }
